@@ -170,6 +170,69 @@ fn query_prepared<RK: RadioKind>(
     Some(out)
 }
 
+/// The LDRO bit the chip ends up with after each call of the `LoRa` API that programs a modulation: prepare_for_tx,
+/// prepare_for_rx, prepare_for_cad with the parameters `LoRa::create_modulation_params` hands out, and `listen`
+/// (which builds its own SF7 modulation for the bandwidth) - over a register file that serves back what was written.
+/// Returns (path, spreading factor programmed, SPI writes of the call).
+fn query_api<RK: RadioKind>(
+    rk: RK,
+    bus: &std::rc::Rc<std::cell::RefCell<Bus>>,
+    sf: SpreadingFactor,
+    bw: Bandwidth,
+) -> Vec<(&'static str, u32, Vec<Vec<u8>>)> {
+    use crate::mock::MockDelay;
+    use lora_phy::{LoRa, RxMode};
+    let regs = std::rc::Rc::new(std::cell::RefCell::new([0u8; 128]));
+    let (r1, r2) = (regs.clone(), regs.clone());
+    {
+        let mut b = bus.borrow_mut();
+        b.responder = Box::new(move |w: &[u8], r: &mut [u8]| {
+            let a = w.first().map(|a| (a & 0x7f) as usize).unwrap_or(0);
+            for (i, x) in r.iter_mut().enumerate() {
+                *x = r1.borrow()[(a + i) & 0x7f];
+            }
+        });
+        b.on_write = Some(Box::new(move |w: &[u8]| {
+            if w.len() >= 2 && w[0] & 0x80 != 0 {
+                let a = (w[0] & 0x7f) as usize;
+                for (i, v) in w[1..].iter().enumerate() {
+                    r2.borrow_mut()[(a + i) & 0x7f] = *v;
+                }
+            }
+        }));
+    }
+    let mut out = vec![];
+    let Some(Ok(mut lora)) = crate::mock::block_on_budget(LoRa::new(rk, false, MockDelay), 64) else { return out };
+    let f = 868_100_000u32;
+    if let Ok(mp) = lora.create_modulation_params(sf, bw, CodingRate::_4_5, f) {
+        if let Ok(mut txp) = lora.create_tx_packet_params(8, false, true, false, &mp) {
+            bus.borrow_mut().log.clear();
+            if let Some(Ok(())) = crate::mock::block_on_budget(lora.prepare_for_tx(&mp, &mut txp, 10, &[1, 2, 3]), 64) {
+                out.push(("prepare_for_tx", sf.factor(), spi_writes(bus)));
+            }
+        }
+        if let Ok(rxp) = lora.create_rx_packet_params(8, false, 16, true, false, &mp) {
+            bus.borrow_mut().log.clear();
+            if let Some(Ok(())) = crate::mock::block_on_budget(lora.prepare_for_rx(RxMode::Continuous, &mp, &rxp), 64) {
+                out.push(("prepare_for_rx", sf.factor(), spi_writes(bus)));
+            }
+        }
+        bus.borrow_mut().log.clear();
+        if let Some(Ok(())) = crate::mock::block_on_budget(lora.prepare_for_cad(&mp), 64) {
+            out.push(("prepare_for_cad", sf.factor(), spi_writes(bus)));
+        }
+    }
+    if sf == SpreadingFactor::_7 {
+        // leave a slow configuration behind first, so that a bit that is not written shows
+        bus.borrow_mut().log.clear();
+        if let Some(Ok(())) = crate::mock::block_on_budget(lora.listen(f, bw), 64) {
+            out.push(("listen", 7, spi_writes(bus)));
+        }
+    }
+    bus.borrow_mut().on_write = None;
+    out
+}
+
 /// `vh ldro`: every implementation's LDRO decision and the bytes it programs, for all 80 (SF,BW).
 pub fn ldro(a: &Args) {
     let mut out = Shards::create(&a.out, "ldro", a.shards);
@@ -183,6 +246,7 @@ pub fn ldro(a: &Args) {
             }
             let mut decisions: Vec<u32> = Vec::new();
             let mut prepared: Vec<(&str, Option<Vec<(u8, u8, u8, Vec<Vec<u8>>)>>)> = Vec::new();
+            let mut api: Vec<(&str, Vec<(&'static str, u32, Vec<Vec<u8>>)>)> = Vec::new();
             let calc = BaseBandModulationParams::new(sf, *bw, CodingRate::_4_5).ldro as u32;
             decisions.push(calc);
             out.emit(&json!({"ev":"ldro","impl":"calc","what":"decision","sf":sf.factor(),"bw":bi,
@@ -209,6 +273,9 @@ pub fn ldro(a: &Args) {
                 );
                 rec("sx126x", query(&mut rk, &bus, sf, *bw), &mut decisions);
                 prepared.push(("sx126x", query_prepared(&mut rk, &bus, sf, *bw)));
+                let bus2 = Bus::new();
+                api.push(("sx126x", query_api(sx126x::Sx126x::new(MockSpi(bus2.clone()), MockIv(bus2.clone()),
+                    sx126x::Config { chip: sx126x::Sx1262, tcxo_ctrl: None, use_dcdc: false, rx_boost: false }), &bus2, sf, *bw)));
             }
             {
                 let bus = Bus::new();
@@ -219,6 +286,9 @@ pub fn ldro(a: &Args) {
                 );
                 rec("sx1276", query(&mut rk, &bus, sf, *bw), &mut decisions);
                 prepared.push(("sx1276", query_prepared(&mut rk, &bus, sf, *bw)));
+                let bus2 = Bus::new();
+                api.push(("sx1276", query_api(sx127x::Sx127x::new(MockSpi(bus2.clone()), MockIv(bus2.clone()),
+                    sx127x::Config { chip: sx127x::Sx1276, tcxo_used: false, tx_boost: false, rx_boost: false }), &bus2, sf, *bw)));
             }
             {
                 let bus = Bus::new();
@@ -229,6 +299,9 @@ pub fn ldro(a: &Args) {
                 );
                 rec("sx1272", query(&mut rk, &bus, sf, *bw), &mut decisions);
                 prepared.push(("sx1272", query_prepared(&mut rk, &bus, sf, *bw)));
+                let bus2 = Bus::new();
+                api.push(("sx1272", query_api(sx127x::Sx127x::new(MockSpi(bus2.clone()), MockIv(bus2.clone()),
+                    sx127x::Config { chip: sx127x::Sx1272, tcxo_used: false, tx_boost: false, rx_boost: false }), &bus2, sf, *bw)));
             }
             {
                 let bus = Bus::new();
@@ -245,6 +318,15 @@ pub fn ldro(a: &Args) {
                 );
                 rec("lr1110", query(&mut rk, &bus, sf, *bw), &mut decisions);
                 prepared.push(("lr1110", query_prepared(&mut rk, &bus, sf, *bw)));
+                let bus2 = Bus::new();
+                api.push(("lr1110", query_api(lr1110::Lr1110::new(MockSpi(bus2.clone()), MockIv(bus2.clone()),
+                    lr1110::Config { pa_selection: lr1110::PaSelection::Lp, dio_as_rf_switch: None, tcxo_ctrl: None, use_dcdc: false, rx_boost: false }), &bus2, sf, *bw)));
+            }
+            for (name, q) in api {
+                for (path, sfp, txns) in q {
+                    out.emit(&json!({"ev":"ldro","impl":name,"what":"prepared","sf":sfp,"bw":bi,
+                                     "supported":1,"ldro":-1,"txns":txns,"prior":0,"hdr":0,"crc":1,"path":path}));
+                }
             }
             for (name, q) in prepared {
                 for (prior, hdr, crc, txns) in q.unwrap_or_default() {
